@@ -90,3 +90,31 @@ Proof.
   - eapply Forall_impl; [|exact F]. cbn beta. unfold rsize. intros; lia.
   - intros H. specialize (B H). eapply Forall_impl; [|exact B]. unfold leaf_ok, rsize. intros; lia.
 Qed.
+
+(* strided parallel_for: the indices first + i*step, 0 <= i < trip, are exactly the members of the arithmetic progression that
+   lie below last: all of them are in [first, last), the next one is not, and different i give different indices. *)
+Lemma strided_exact first last step : 0 < step -> first < last ->
+  0 < strided_trip first last step /\
+  (forall i, 0 <= i < strided_trip first last step -> first <= strided_index first step i < last) /\
+  last <= strided_index first step (strided_trip first last step) /\
+  (forall i j, strided_index first step i = strided_index first step j -> i = j).
+Proof.
+  intros Hs Hl. unfold strided_trip, strided_index.
+  set (q := (last - first - 1) / step).
+  assert (Hq : step * q <= last - first - 1 < step * q + step).
+  { unfold q. pose proof (Z.mul_div_le (last - first - 1) step Hs). pose proof (Z.mul_succ_div_gt (last - first - 1) step Hs). lia. }
+  assert (0 <= q) by (unfold q; apply Z.div_pos; lia).
+  split; [lia|]. split; [|split].
+  - intros i Hi. split; [nia|]. assert (i <= q) by lia. nia.
+  - nia.
+  - intros i j H0. nia.
+Qed.
+
+(* every member of the progression below last is visited: x = first + k*step with x < last has k < trip *)
+Lemma strided_complete first last step k : 0 < step -> first < last -> 0 <= k ->
+  strided_index first step k < last -> k < strided_trip first last step.
+Proof.
+  intros Hs Hl Hk Hx. unfold strided_trip, strided_index in *.
+  assert (k * step <= last - first - 1) by lia.
+  assert (k <= (last - first - 1) / step) by (apply Z.div_le_lower_bound; lia). lia.
+Qed.
